@@ -14,12 +14,12 @@ BOUNDS = ("Quick explores all schedules with <=2-3 deviations (2-thread) / <=1-2
           "deviations, depth 7, N=4, more wait configurations, 4-thread scenarios, role-matrix pairs at N=2).")
 
 P = {
- "C01": ("E1", "exhaustive deviation-bounded schedule enumeration of the real code + history oracle",
-         "O-deliver: per stream, delivered ids are accepted ids, no id twice, every accepted id delivered after the post-join drain; handed-back payload is the identical instance. Judged on the base pair/trio/quad families, the role matrix (every pair and triple of 19 roles) and the C10/C11/C12 structural scenarios."),
+ "C01": ("E1+E2", "exhaustive deviation-bounded schedule enumeration of the real code + history oracle; population histories against the model",
+         "O-deliver: per stream, delivered ids are accepted ids, no id twice, every accepted id delivered after the post-join drain; handed-back payload is the identical instance. Judged on the base pair/trio/quad families, the role matrix (every pair and triple of 19 roles) and the C10/C11/C12 structural scenarios. E2: population histories (1..12 extra streams / consumer handles, up to 8 extra senders, one lagging stream, three leave orders) compared with the model."),
  "C02": ("E1", "exhaustive deviation-bounded schedule enumeration + order-graph oracle",
          "O-order: the union of per-consumer receive chains, per-producer send chains and real-time send edges must be acyclic; same scenario set as C01."),
  "C03": ("E1+E2", "exhaustive schedule enumeration + capacity-window oracle; exhaustive capacity pump histories",
-         "O-cap: when an accepted send returns, accepted-returned sends minus receives begun on every subscribed stream is at most N; E2 pump over requested capacities 0..9 compares every Full/Ok with the model."),
+         "O-cap: when an accepted send returns, accepted-returned sends minus receives begun on every subscribed stream is at most N; E2 pump over requested capacities 0..9 and the population histories compare every Full/Ok with the model."),
  "C04": ("E1", "exhaustive schedule enumeration with a payload whose clone/view/drop bodies contain scheduling points",
          "O-payload: instrumented payload with scheduling points inside Clone/view closures and Drop; slot reads/writes are scheduling points; ledger detects drop-while-borrowed, replaced-during, dead or corrupt values."),
  "C05": ("E1+E2", "exhaustive schedule enumeration of teardown races + exhaustive API histories x teardown orders with a payload ledger",
@@ -34,8 +34,8 @@ P = {
          "every return value of every call equals the reference model (log, cursor per stream, window N, sender count); no panic; calls that would block are observed as Blocked; starts after 16..20 and 24 retirements; capacity pump 0..9; the calls of the fixed handles between 100 (thorough 1000) churn cycles equal the model."),
  "C10": ("E1", "exhaustive schedule enumeration of add_stream vs wrapping producer vs sibling consumer; role matrix",
          "O-addstream: the new stream's drained sequence is a gapless suffix of the common order starting inside the parent's position interval during the call; C01/C02/C03/C06 oracles on all streams of the same executions."),
- "C11": ("E1", "exhaustive schedule enumeration of handle removal vs retrying producer; role matrix",
-         "O-remove: producer retry must succeed after the removal (else hang), remaining streams keep values/backpressure (C01/C03/C06 oracles), unsubscribe truth table incl. 'exactly one true when all handles leave through unsubscribe'."),
+ "C11": ("E1+E2", "exhaustive schedule enumeration of handle removal vs retrying producer; role matrix; population histories and parked-sender sweep",
+         "O-remove: producer retry must succeed after the removal (else hang), remaining streams keep values/backpressure (C01/C03/C06 oracles), unsubscribe truth table incl. 'exactly one true when all handles leave through unsubscribe'. E2: 1..12 streams leaving in three orders compared with the model; 1..12 sink tasks parked behind a lagging stream must be notified when it is unsubscribed or dropped."),
  "C12": ("E1+E2", "exhaustive schedule enumeration with population changes 1->2->1 mid-traffic; role matrix; churn histories against the model",
          "C01-C03 + O-quiesce oracles on executions whose threads clone/hand-off/drop sender and receiver handles and convert single<->multi between operations; E2: after every one of 100 (thorough 1000) clone/drop/convert cycles (incl. bursts with idle handles) the fixed handles' try_send/try_recv equal the model."),
  "C13": ("E1+E2", "exhaustive schedule enumeration of last-receiver drop vs send / parking sink + exhaustive histories",
